@@ -383,16 +383,18 @@ def job_mergeable_config(jc):
 
 
 
+def copy_svg_jobs(tier):
+    perms = [tuple(range(len(NAMES))), (0, 6, 5, 4, 3, 2, 1), (0, 3, 1, 5, 2, 6, 4)]
+    if tier != "quick":
+        perms += [(0, 2, 1, 4, 3, 6, 5), (0, 4, 5, 6, 1, 2, 3)]
+    return [Job(f"copy_svg[target order {p}]", job_copy_svg, target_perm=p) for p in perms]
+
+
 def jobs(tier):
     import itertools
     from harness import C07_cbdt, C13, C11
 
-    js = []
-    perms = [tuple(range(len(NAMES))), (0, 6, 5, 4, 3, 2, 1), (0, 3, 1, 5, 2, 6, 4)]
-    if tier != "quick":
-        perms += [(0, 2, 1, 4, 3, 6, 5), (0, 4, 5, 6, 1, 2, 3)]
-    for p in perms:
-        js.append(Job(f"copy_svg[target order {p}]", job_copy_svg, target_perm=p))
+    js = copy_svg_jobs(tier)
     js += C07_cbdt.copy_jobs(tier)
     js += [Job("copy_colr[v1]", job_copy_colr, version=1), Job("copy_colr[v0]", job_copy_colr, version=0)]
     js.append(Job("extract svg_glyphs", job_svg_glyphs))
